@@ -29,7 +29,7 @@ DER_BASES = ['L1Norm', 'L2NormSquared', 'L2Norm', 'KullbackLeibler', 'Huber',
              'KullbackLeiblerCrossEntropy', 'GroupL1Norm', 'KullbackLeiblerConvexConj',
              'KullbackLeiblerCrossEntropyConvexConj', 'ConstantFunctional', 'LpNorm']
 DER_KINDS = ['translated', 'leftscal', 'leftscal_half', 'rightscal', 'rightscal_neg', 'quadpert_a0', 'scalarsum',
-             'rightvec', 'quadpert', 'quadpert_nou', 'bregman', 'rightscal0']
+             'rightvec', 'quadpert', 'quadpert_nou', 'quadpert_c', 'bregman', 'rightscal0']
 OPS = ['matrix', 'scaling', 'multiply', 'square', 'sin', 'exp', 'affine']
 
 
